@@ -16,7 +16,9 @@ ops
       completed, the relay hands A the stage-0 handshake packet of X once more in a fresh relay frame
       (byte-identical, or with one bit flipped)
   reply                                                        -> digest difference at A when its tun emits a packet for X
-answer: `tun=<n> out=<t/s>node,…> del=<peers> roam=<peers> in=<peers> win=<peers> rs=<peers> lh=<0|1> pend=<0|1> used=<n> seen=<0|1>`
+answer: `tun=<n> out=<t/s>node,…> del=<peers> roam=<peers> in=<peers> win=<peers> rs=<peers> lh=<0|1> pend=<0|1> used=<n> ru=<names> seen=<0|1>`
+        (`ru`: the relay indexes marked used, by name: `r<peer>` a relay index on the tunnel with <peer>,
+         `<peer>` a hostinfo index, `zero`, `other`)
         (`seen`: the datagram handed to the relay contained the end-to-end plaintext;
          `xr`: A's hostinfo for X — a relay-only tunnel — has a direct underlay remote)
 
@@ -114,9 +116,16 @@ def render (s : St) (rx sender : Nat) (src : String) (effs : List Effect) (rsPee
   let inn := effs.filterMap (fun e => match e with | .markIn p => some (peerName p) | _ => none)
   let inn := inn.filter (fun p => !del.contains p)
   let used := (effs.filter (fun e => match e with | .relayUsed _ => true | .forward _ _ => true | _ => false)).length
+  -- names of the relay indexes marked used: the carrying index lives on the tunnel with the relay (R at
+  -- receiver A, X at receiver R); a forward goes out on R's relay index towards A; `reply` uses A's index on R
+  let ru := effs.filterMap (fun e => match e with
+    | .relayUsed _ => some (if rx == 0 then "rR" else "rX")
+    | .forward _ _ => some "rA"
+    | _ => none)
+  let ru := ru ++ (if extraUsed > 0 then ["rR"] else [])
   let lh := (!roam.isEmpty && s.lhRoam) || !del.isEmpty || forceLh
   let del := del ++ extraDel
-  s!"tun={tun} out={setStr (sortStr out)} del={setStr (sortStr (dedup del))} roam={setStr (sortStr roam)} in={setStr (sortStr (dedup inn))} win={setStr (sortStr (dedup inn))} rs={setStr rsPeers} lh={boolStr lh} pend={boolStr pend} used={used + extraUsed} seen=0 xr=0"
+  s!"tun={tun} out={setStr (sortStr out)} del={setStr (sortStr (dedup del))} roam={setStr (sortStr roam)} in={setStr (sortStr (dedup inn))} win={setStr (sortStr (dedup inn))} rs={setStr rsPeers} lh={boolStr lh} pend={boolStr pend} used={used + extraUsed} ru={setStr (sortStr (dedup ru))} seen=0 xr=0"
 
 /-- lookups of one level at receiver `rx`. `own` = the peer whose tunnel sealed this level. -/
 def mkLook (s : St) (rx : Nat) (relayedLevel : Bool) (src : String) (h base : SymHdr) (own : Nat)
@@ -201,6 +210,18 @@ def relayOnlyVerdict (impl : String) (onlyRelayFrames : Bool) (noRoam : List Str
 
 def andVerdict (a b : String) : String := if a == "ok" then b else a
 
+/-- C14 relay-usage oracle for an AUTHENTIC outer relay frame received by A on its relay index with R
+(`rR`): the frame marks exactly the index that carried it.  An inner packet that did not authenticate
+must not add (or substitute) any other index (`Props.C14.unauth_inner_marks_only_carrier`). -/
+def carrierOnlyVerdict (impl : String) (innerAuth : Bool) : String :=
+  let toks := impl.splitOn " "
+  let get (k : String) : String := ((toks.find? (·.startsWith (k ++ "="))).getD (k ++ "=?")).drop (k.length + 1) |>.toString
+  let ru := (get "ru").splitOn ","
+  if ru.any (fun x => x != "rR" && x != "-") then
+    (if innerAuth then "bad relay-used-wrong-index" else "bad unauth-inner-marked-relay-used")
+  else if !ru.contains "rR" then "bad relay-used-not-marked"
+  else "ok"
+
 def evalPkt (s : St) (kind src scope : String) (mutArgs : List String) (impl : String) : St × Out :=
   match kindInfo kind with
   | none => (s, badOp)
@@ -248,7 +269,8 @@ def evalPkt (s : St) (kind src scope : String) (mutArgs : List String) (impl : S
            else if get "del" != "-" then "bad unauth-inner-tunnel-closed"
            else if ((get "in").splitOn ",").contains "X" || ((get "win").splitOn ",").contains "X" then "bad unauth-inner-attributed"
            else if get "rs" != "-" then "bad unauth-relay-state"
-           else "ok")
+           else carrierOnlyVerdict impl false)
+        else if innerBase.isSome && rx == 0 then carrierOnlyVerdict impl true
         else "ok"
       let tag :=
         if unencrypted then "pkt:unencrypted-type"
